@@ -1,6 +1,7 @@
 import PysphVerif.Driver.Common
 import PysphVerif.Model.Needs
 import PysphVerif.Model.NeedsCodegen
+import PysphVerif.Model.NeedsObjects
 /-!
 Line protocol for C20.  Values contain no blanks; names are identifiers.
 
@@ -12,6 +13,8 @@ Line protocol for C20.  Values contain no blanks; names are identifiers.
                 `S0,1+2+_` (sub-groups separated by `+`)
   S=<steppers>  `dest~cls~meth:arg;arg,meth:_~pystage;pystage^...`
   L=<names>     `a;b`
+  O=<objects>   `cls~meth:arg;arg,meth:_~pystage;pystage^...`  the distinct stepper objects
+  K=<keywords>  `dest:i|dest:i`  keyword -> index into O, in keyword order
 
 ops:
   `check T A Q P`   verdict of the repaired `AccelerationEval.__init__` checks
@@ -27,6 +30,9 @@ ops:
                     `get_array_declarations(m)` does: the declared names, `!` = the
                     RuntimeError of the check, `?n` = KeyError on `n`
   `sbind S`         `bind <arr.var.prop;...>` pointer variables the generated integrator binds
+  `ssetup A O K`    `<verdict> | <verdict'> | bind <...>`: the stepper checks on the
+                    (array, stepper) pairs of `Integrator(**K)`, the verdict a check
+                    per stepper OBJECT would give (not the code), and the bindings
 -/
 namespace PysphVerif.Driver.C20
 open PysphVerif.Wire PysphVerif.Needs
@@ -98,6 +104,26 @@ def parseStepper (s : String) : Option Stepper :=
     pure { dest := d, cls := c, methods := ms, pyStages := py }
   | _ => none
 
+def parseStepObj (s : String) : Option StepObj :=
+  match s.splitOn "~" with
+  | [c, ms, py] => do
+    if !(okName c) then none
+    let ms ← (splitL "," ms).mapM parseMethod
+    let py ← names? ";" py
+    pure { cls := c, methods := ms, pyStages := py }
+  | _ => none
+
+def parseKw (s : String) : Option (List (Name × Nat)) :=
+  (splitL "|" s).mapM (fun e => match e.splitOn ":" with
+    | [k, i] => if okName k then i.toNat?.map (fun n => (k, n)) else none
+    | _ => none)
+
+def parseSetup (o k : Option String) : Option StepperSetup := do
+  let objs ← (← o).splitOn "^" |> (fun l => if l = ["_"] then some [] else l.mapM parseStepObj)
+  let kw ← parseKw (← k)
+  let s : StepperSetup := { objs := objs, kw := kw }
+  if s.wf then some s else none
+
 def parseSteppers (s : String) : Option (List Stepper) := (splitL "^" s).mapM parseStepper
 
 def showNames (l : List Name) : String := if l.isEmpty then "_" else ";".intercalate l
@@ -167,6 +193,15 @@ def handle (line : String) : String :=
       if nkeys = 1 then
         "bind " ++ showNames ((stepperBindings s).map (fun b => b.1 ++ "." ++ b.2.1 ++ "." ++ b.2.2))
       else "bad-op"
+    | "ssetup", none, some a, none, none, none =>
+      (match parseSetup (lookup kv "O") (lookup kv "K") with
+       | some s =>
+         if nkeys = 3 then
+           showSVerdict (checkSetup a s) ++ " | " ++ showSVerdict (checkSetupPerObject a s) ++
+           " | bind " ++ showNames ((setupBindings s).map
+             (fun b => b.1 ++ "." ++ b.2.1 ++ "." ++ b.2.2))
+         else "bad-op"
+       | none => "bad-op")
     | "build", some t, some a, some _, some p, some s =>
       if nkeys = 5 then
         (match buildAll t a p s with
